@@ -93,14 +93,14 @@ def check_config(ctx, rep, cfg):
                               "comparison (or the Ok edge of an authenticated callee): exit at %s via %s"
                               % (f.loc(b), cm.fmt_path(f, path)), loc=f.loc(b))
             continue
-        n_auth += 1
+        n_auth += 1 if f.vis == "pub" else 0
         rep.ob("AUTH", inst, True, "%d Ok exit(s), all behind %d authenticating edge(s) of %s" % (
             r.ok_exits, len(r.good_edges),
             ", ".join(sorted({("ct_eq@%s" % a.line()) if k == "prim" else a.rpath.split("::")[-1]
                               for a, k in r.atoms}))), loc=f.loc())
         rep.sample({"fn": f.path, "ok_exits": r.ok_exits, "auth_edges": len(r.good_edges),
                     "via": [a.rpath for a, k in r.atoms][:4]})
-    rep.floor("authenticated openers" + tag, n_auth, 24 if cfg != "default" else 20)
+    rep.floor("authenticated public openers" + tag, n_auth, 21)
     # named public entry points must exist and be authenticated (anchors are public API)
     for p in PUBLIC_OPENERS:
         if isinstance(p, tuple):
@@ -123,8 +123,9 @@ def check_config(ctx, rep, cfg):
                    "operand widths %s; one operand must be a whole [u8;16] so that ct_eq (which compares "
                    "lengths first) can only succeed on a full 16-byte match" % (ws,), loc=c.loc())
     # ---- COVER ---------------------------------------------------------------------------------
+    views = {f.key: f for f in cands}
     for k in sorted(auth):
-        f = prog.by_key[k]
+        f = views.get(k, prog.by_key[k])      # the view the atoms were found in
         r = results[k]
         back = set()
         for a, kind in r.atoms:
@@ -152,7 +153,7 @@ def check_config(ctx, rep, cfg):
     sealers = prog.by_path.get("classic::crypto_box::crypto_box_seal_open", []) + cm.find_method(prog, "dryocbox::DryocBox", "unseal")
     rep.floor("sealed-box openers" + tag, len(sealers), 2)
     for f in sealers:
-        seal_nonce(rep, prog, f, results, tag)
+        seal_nonce(rep, prog, views.get(f.key, f), results, tag)
         faithful_copies(rep, prog, f, results, tag)
     # every accepted comparison has operands of equal static width (a slice ct_eq of unequal
     # lengths is constantly false; on the accept side that only rejects, but it signals a wrong operand)
